@@ -648,6 +648,10 @@ func checkC07NoScriptOnError(p *Prog, r *Report, ru *Rule, sh *ssa.Function) {
 			return
 		}
 		what := calleeName(c.Common())
+		switch what {
+		case "fmt.Errorf", "errors.New", "errors.Join", "errors.Unwrap":
+			return /* makes an error value; cannot itself fail */
+		}
 		if c == exec {
 			what = "template execution"
 		}
